@@ -112,7 +112,12 @@ impl MultiExecMatcher {
         args: &[&str],
         exec_in_parent_dir: bool,
     ) -> Result<Self, Box<dyn Error>> {
-        let transformed_args = args.iter().map(OsString::from).collect();
+        let transformed_args: Vec<OsString> = args.iter().map(OsString::from).collect();
+
+        // new_command() relies on the fixed arguments fitting on a command line
+        argmax::Command::new(executable)
+            .try_args(&transformed_args)
+            .map_err(|e| format!("{executable}: {e}"))?;
 
         Ok(Self {
             executable: executable.to_string(),
